@@ -36,11 +36,18 @@ def eligible_edits(mm: MetaModel, d, p) -> List[Tuple[str, Any]]:
         lo, hi = (INT_MIN, INT_MAX) if t["name"] == "integer" else (UINT_MIN, UINT_MAX)
         for v in (lo - 1, hi + 1, -(2**40), 2**40, float(hi + 1), float(lo - 1)):
             out.append(("range", v))
+        # out-of-range numbers that are congruent to the VALID value of the surrounding input modulo 2**32 / 2**64 (wrap-around, packed keys)
+        for k in (2**32, 2**64, -(2**32)):
+            out.append(("range", ("congruent", k)))
     if t["kind"] == "reference" and t["name"] in mm.enumerations and not mm.is_open_enum(t["name"]):
         e = mm.enumerations[t["name"]]
         vals = [v["value"] for v in e["values"]]
         if e["type"]["name"] == "string":
-            for v in ("__not_a_member__", vals[0] + "x", vals[0][:-1], ""):
+            names = [x["name"] for x in e["values"]]
+            cands = ["__not_a_member__", vals[0] + "x", vals[0][:-1], ""]
+            for w in vals[:4] + names[:4]:
+                cands += [w.upper(), w.lower(), w.capitalize(), w.title(), w.swapcase(), " " + w, w + " "]
+            for v in dict.fromkeys(cands):
                 if v not in vals:
                     out.append(("enum", v))
         else:
@@ -134,6 +141,16 @@ def main(argv: List[str]) -> int:
                             if p["name"] not in j:
                                 continue
                             del j[p["name"]]
+                        elif isinstance(repl, tuple) and repl and repl[0] == "congruent":
+                            cur = j.get(p["name"])
+                            if not isinstance(cur, int) or isinstance(cur, bool):
+                                continue
+                            try:
+                                conv.structure(dict(base), cls)  # the valid value is seen first, by the same converter
+                            except Exception:  # noqa
+                                pass
+                            repl = cur + repl[1]
+                            j[p["name"]] = repl
                         else:
                             j[p["name"]] = repl
                         sweeps += 1
@@ -182,6 +199,12 @@ def main(argv: List[str]) -> int:
                                 if q["name"] not in e:
                                     continue
                                 del e[q["name"]]
+                            elif isinstance(repl, tuple) and repl and repl[0] == "congruent":
+                                cur = e.get(q["name"])
+                                if not isinstance(cur, int) or isinstance(cur, bool):
+                                    continue
+                                repl = cur + repl[1]
+                                e[q["name"]] = repl
                             else:
                                 e[q["name"]] = repl
                             val = place(e)
